@@ -128,7 +128,7 @@ PROPS["C08"] = dict(
 NET_REAL = ["stack (stack.go, nic.go, route.go, transport_demuxer.go, linkaddrcache.go)", "protocol/network/ipv4, ipv6, arp, fragmentation, hash",
             "protocol/transport/tcp (all of it: endpoint, connect, accept, snd, rcv, sack, reno, cubic, timer, segment*)", "protocol/transport/udp",
             "protocol/header", "pkg/buffer, pkg/seqnum, pkg/sleep (Go commitSleep), pkg/tmutex, pkg/waiter, pkg/ilist", "protocol/ports"]
-NET_STUBS = ["NIC and wire: in-memory link endpoints registered through stack.RegisterLinkEndpoint; the simulator delivers, drops, duplicates, reorders, delays and replays frames",
+NET_STUBS = ["NIC and wire: in-memory link endpoints registered through stack.RegisterLinkEndpoint; the simulator delivers, drops, duplicates, reorders, delays and replays frames, and makes the device refuse a frame (link write error)",
              "wall clock and all timers: testing/synctest fake clock; order of same-instant timers: seeded (runtime overlay)",
              "goroutine scheduling: one P, no time-slice pre-emption (runtime overlay), GC off during a run; seeded runtime.Gosched at verif schedule points and at every frame emission",
              "crypto randomness (pkg/rand): seeded stream, one-shot queue to place initial sequence numbers",
